@@ -74,6 +74,8 @@ def c01(ctx):
         D.r_complete(ctx, prog, MAIN3)
         CB.r_srcstore(ctx, prog, MAIN3)
         CB.r_srcptr(ctx, prog, MAIN3)
+        # a decoded symbol is delivered through the callback-or-allocate rule; a NULL from the callback must not turn into a lost symbol
+        CB.r_cb(ctx, prog, MAIN3)
         # the LDPC decoder injects a zero symbol on the strength of the last-symbol-null claim: that claim must be sound
         K.r_flag_truth(ctx, prog)
         K.r_extra_mark(ctx, prog)
@@ -110,6 +112,14 @@ def c02(ctx):
         T.r_poly(ctx, prog)
         PA.r_param(ctx, prog, codecs=(1, 2), only=['k>=1', 'k<=MAX_K', 'n<=MAX_N'])
         SB.r_siblings(ctx, prog, ['rs-algebra', 'rs-api'])
+        # "any k of the n symbols decode" is about the symbols the encoder hands out and the symbols the decoder hands back:
+        # the RS encoders' accumulation loops, the delivery of decoded symbols, and the GF kernels both sides run on
+        F.r_enc_loop(ctx, prog, RS)
+        F.r_nullslot(ctx, prog, RS)
+        CB.r_cb(ctx, prog, RS)
+        CB.r_srcstore(ctx, prog, RS)
+        KN.r_kernel_shape(ctx, prog, KN.GF_KINDS)
+        KN.r_kea(ctx, prog, list(range(0, 2 * KN.P + 9)), [0], KN.GF_KINDS)
     return dict(
         explanation='R-PARAM (k and n clauses): an accepted (k, n) has 1 <= k <= MAX_K and n <= MAX_N = 2^m-1, the range in which the '
         'evaluation points are pairwise distinct. R-RS-THRESHOLD: both RS finish_decoding routines run the matrix decoder only with >= k symbols, return FAILURE and '
@@ -161,6 +171,8 @@ def c10(ctx):
         SB.r_siblings(ctx, prog, ['rs-api'])
         CB.r_srcptr(ctx, prog, MAIN3)
         CB.r_srcstore(ctx, prog, MAIN3)
+        # a callback that declines (returns NULL) must not turn a successful decoding into an error status
+        CB.r_cb(ctx, prog, MAIN3)
     return dict(
         explanation='One rule per sentence of C10. R-FINISH-TRUTH: with error edges removed, finish_decoding returns OK only on paths '
         'where the session is complete and FAILURE only where a completion test made after the last table update said no. R-RETSET: '
@@ -571,7 +583,6 @@ def c16(ctx):
         # "released without leak at any point": local allocations of the decoders the 2D codec runs on
         O.r_own_local(ctx, prog, ['of_it_decoding.c', 'of_ml_decoding.c', 'of_ml_tool.c', 'of_2d_parity_api.c', 'of_create_pchk.c'])
         F.r_2d_radix(ctx, prog)
-        SB.r_siblings(ctx, prog, ['lb-api'])
         O.r_own_field(ctx, prog, [5], helpers=False)
         O.r_own_elem(ctx, prog, [5])
     return dict(
